@@ -150,7 +150,7 @@ def CANDIDATES(func: str):
         for sel in itertools.product(range(14), range(2), range(2)):
             yield [list(sel) + [0] * 7]
     else:
-        for sel in itertools.product(range(2), range(2), range(3), range(15), range(13), range(3), range(2)):
+        for sel in itertools.product(range(2), range(2), range(3), range(15), range(14), range(3), range(2)):
             yield [list(sel) + [0] * 3]
 
 
